@@ -177,7 +177,7 @@ fn replay(case: &Value, st: &mut Stats) {
             let ts = case["unix"].as_i64().unwrap();
             check_calendar_day(ts.div_euclid(86400), ts.rem_euclid(86400), st)
         }
-        k => eprintln!("unknown case kind {k}"),
+        k => crate::diag!("unknown case kind {k}"),
     }
 }
 
